@@ -42,8 +42,8 @@ def run(prop, tier, seed, work, ev):
         c = work.path("rcalls.cases")
         subprocess.check_call([drv, "gen", "calls", str(seed), str(t["rand"]), c])
         rejects += eng_eval.run_and_judge("random calls (large arrays, ties, all planes of Unicode)", c, work, ev, drv, nsamples=3)
-        rejects += eng_eval.pool_families(["nest", "compose", "hash", "mapnull", "nested", "selfnest", "byorder", "bykeys", "bignums"], work, ev, drv)
-        rejects += eng_eval.pools_matching(r"[a-z_]+\(", "a function call", work, ev, drv, skip=("nest", "compose", "hash", "mapnull", "nested", "selfnest", "byorder", "bykeys", "bignums"))
+        rejects += eng_eval.pool_families(["nest", "compose", "hash", "mapnull", "nested", "selfnest", "byorder", "bykeys", "bignums", "strclass", "scalarties", "tonum"], work, ev, drv)
+        rejects += eng_eval.pools_matching(r"[a-z_]+\(", "a function call", work, ev, drv, skip=("nest", "compose", "hash", "mapnull", "nested", "selfnest", "byorder", "bykeys", "bignums", "strclass", "scalarties", "tonum"))
     else:
         tlc_ok("mc/MC_Call.tla", "MC_Call_sig.cfg" if tier == "quick" else "MC_Call_sig_thorough.cfg", work, ev=ev,
                label="signature table: arity first, types, result types, L1 table = L0 table " + tier, timeout=3000)
